@@ -108,3 +108,50 @@ for _pid, _t in _GEN3_TEXT.items():
             LEVEL[_pid]["note"] += _GEN3_NOTE
         if "MovePreallocated itself regenerated" not in LEVEL[_pid]["technique"]:
             LEVEL[_pid]["technique"] += _GEN3_TECH
+
+# Fourth round (work package "gen4"): the threat detector and the heuristic evaluator of ai/evaluate.go.
+_GEN4_TECH = {
+    "C18": " + ai.evaluate ITSELF (with mobility, scoreGroups, scoreThreats, computeInfluence / computeControl, scoreControl and the init that builds DefaultWeights) regenerated from ai/evaluate.go on every run and proved equal to the model (Props/C18_gen2.lean: the tie for the evaluator is a regenerated definition + bridge theorems, not only sampling)",
+    "C19": " + ai.CountThreats ITSELF regenerated from ai/evaluate.go on every run and proved equal to the model for all constants and positions (Props/C19_gen.lean: threat_real is a theorem about the regenerated detector)",
+}
+_GEN4_TEXT = {
+    "C19": (" REGENERATED on every run (Generated/FuncsThreat.lean) and bridged in Props/C19_gen.lean: ai.CountThreats itself - the closure countOne with its captured variables (c, empty, and "
+            "the fields p.Standing / p.Caps of the position), the two range loops, the inner `for { .. break .. }` loop over `earlier groups, then single flats` with the index read gs[j], "
+            "the four edge tests - is translated from ai/evaluate.go; p.Analysis() enters as the stored group lists. countThreats_is_source: for EVERY Constants value and EVERY position (no "
+            "well-formedness assumed) the regenerated function returns (gs[j] never panics; the whitelist fuel len(gs)+65 of the inner loop suffices) and its four results are the model's counts. "
+            "Hence gen_threat_real / gen_threat_real_rulebook: C19's theorem is about the function gen reads out of the source; gen_countThreats_total. The fn.threats op (generator FNTHREAT) runs "
+            "the real CountThreats against the regenerated definition on gap / junction / many-singles / many-groups / extremal / small boards and arbitrary raw states."),
+    "C18": (" FOURTH ROUND (Generated/FuncsHeur.lean, on top of FuncsThreat.lean; bridged in Props/C18_gen2.lean, lemmas in Proofs/GenHeur.lean, GenControl.lean, GenEvalMain.lean): ai.evaluate itself "
+            "and every helper it calls are translated from ai/evaluate.go - `w *Weights` as ONE array parameter with the computed index ws[int(Groups)+w] guarded against the STATIC length 36 (Go's index panic = none), "
+            "the range loop over p.Height with p.Stacks[i], the joined ifs and the switch, the hoisted calls of mobility (four general loops, fuel height+1), scoreGroups (over the regenerated Dimensions), "
+            "scoreThreats (over the regenerated CountThreats), computeInfluence (an OUT-PARAMETER function: the ripple-carry counters are assigned in place; `computeInfluence(c, x, wi[:])` = `let wi := ..`), "
+            "computeControl (`var wi, bi [3]uint64`, the down-counting loop), scoreControl, and the init() that builds DefaultWeights (arrays as values, range over an array). "
+            "Helper by helper, for ALL arguments: mobility_is_source, scoreThreats_is_source, computeControl_is_source, scoreControl_is_source, computeInfluence_is_source (three zeroed counters), "
+            "scoreGroups_is_source (whenever the model returns a value); defaultWeights_is_source (the regenerated init applied to the source's two tables builds the model's DefaultWeights: kernel evaluation). "
+            "evaluate_is_source: for every Constants value, every weight vector and every position whose Height has at most 64 entries covered by Stacks, whenever the model's evaluate returns a value "
+            "(finished game or not) the regenerated evaluator returns the same value; evaluateDefault_is_source for the MakeEvaluator(size, nil) path. Hence gen_eval_total (the regenerated evaluator returns on "
+            "every RoadWF position: no index panic, every loop inside its whitelist fuel), gen_eval_abs_le, gen_c18 (C18 in one statement - within [MinEval, MaxEval], strictly inside the threshold for "
+            "undecided games, 0 / beyond the threshold with the right sign for finished ones - for the function gen reads out of the source) and gen_beyond_threshold_is_over. "
+            "The fn.evalw / fn.evalparts / fn.mobility / fn.control / fn.influence / fn.evalinit ops (generator FNHEUR) run the real functions against the regenerated definitions (exact int64 equality) on playouts, extremal, "
+            "finished, gap, many-singles boards and arbitrary raw states (heights to 255), with the built-in, one-hot, group-distinguishing, Potential=Threat=0, EmptyControl=FlatControl=0 and random weight vectors."),
+}
+_GEN4_NOTE = (" Fourth-round conventions of the translator: an abstract array parameter with the view `[all]` is one Array parameter, a computed index into it is checked against the static length of the Go array type; "
+              "`x := p.Analysis()` names the field path p.analysis (gen checks the accessor's body still is `return &p.analysis`); a local closure may read views of the enclosing function's abstract parameters, contain loops and be "
+              "Option-valued; `for { .. break .. }` is a general loop with whitelist fuel; a function that assigns the ELEMENTS of a slice parameter (declared `outParam`; never the slice itself, never append) returns its final value and the "
+              "call statement rebinds the caller's variable (the caller's variable may have no second name); MakeEvaluator itself (it returns a func value) stays a three-line hand mirror (evaluateDefault); hasRoad() / WinDetails() / GameOver() "
+              "enter evaluate as the regenerated functions of the earlier rounds; int64 is Int (no overflow: C18's bound).")
+for _pid, _t in _GEN4_TEXT.items():
+    if _pid in LEVEL:
+        LEVEL[_pid]["text"] += _t
+        if "Fourth-round conventions" not in LEVEL[_pid]["note"]:
+            LEVEL[_pid]["note"] += (_GEN_NOTE if "Regenerated definitions:" not in LEVEL[_pid]["note"] else "") + _GEN4_NOTE
+        LEVEL[_pid]["technique"] += _GEN4_TECH[_pid]
+# the owners' notes predate the regenerated definitions: say what still is tied by sampling only
+if "C19" in LEVEL:
+    LEVEL["C19"]["note"] = LEVEL["C19"]["note"].replace(
+        "The models of CountThreats/Move are tied to the Go code by testing, not proof.",
+        "The models of CountThreats and MovePreallocated are tied to the Go code by regenerated definitions + bridge theorems (C19_gen, C01_gen3) in addition to the sampling; what stays tied by sampling only is the translator's scheme itself (fn.* ops).")
+if "C18" in LEVEL:
+    LEVEL["C18"]["note"] = LEVEL["C18"]["note"].replace(
+        "the model is tied to the Go code by testing, not proof.",
+        "the model of evaluate / evaluateTerminal / EvaluateWinner is tied to the Go code by regenerated definitions + bridge theorems (C18_gen, C18_gen2) in addition to the sampling; MakeEvaluator's three lines and the translator's scheme itself are tied by sampling only.")
